@@ -90,7 +90,7 @@ FILLER = 14     # pre-filled slots of the root directory of the tour images
 def abstract_writes(ws, g):
     """the real device writes of one call in the vocabulary of FatImpl's plans: FAT entries (cluster numbers renamed to the
     model's: the window of the image in ascending order is 2, 3, ...), directory slots, zeroed / dot-initialised directory
-    clusters.  File data and the FAT32 information sector are not part of the model."""
+    clusters, the FAT32 information sector (that it is written, not its values).  File data is not part of the model."""
     win = sorted(g['win'])
     def m(c):
         return 2 + win.index(c) if c in win else 1000 + c
@@ -103,6 +103,8 @@ def abstract_writes(ws, g):
             for c in e['chg']:
                 v = vals.get(c, 0)
                 out.append(['fat' if reg == 'fat1' else 'fat2', m(c), 0 if v == 0 else -1 if v >= eoc else m(v)])
+        elif reg == 'info':
+            out.append(['info', 0])
         elif reg == 'root':
             for i in e['chg']:
                 out.append(['slot', 0, i - FILLER + 1])
@@ -254,4 +256,100 @@ def api_drift(result_dir, histories):
                     gok = e['r']['k'] == 'ok'
                     if wok != gok and len(mism) < 50:
                         mism.append(dict(hid=hid, want=[wop, wok, refs], got=[e['op'], gok, e['r']['e']], i=idx))
+    return total, mism
+
+# ------------------------------------------------------------------------------------------------
+# data-path tours (FatData): reads, writes, seeks and re-opening of one file on chains of every shape
+
+def data_behaviours(num, seed):
+    rc, out, wall = run_tlc('MCDataSim.tla', 'MCDataSim.cfg', workers=1, timeout=900, tag='datasim%d' % seed, extra=['-simulate', 'num=%d' % num, '-depth', '20', '-seed', str(seed)], heap='4g')
+    if 'violated' in out or 'Error:' in out:
+        raise ToolError('MCDataSim: the data-path model violates a property during simulation: ' + out[-2500:])
+    reps = tla_prints(out, 'REPLAY')
+    if not reps:
+        raise ToolError('MCDataSim produced no behaviours: ' + out[-1500:])
+    seen, res = set(), []
+    for r in reps:
+        key = json.dumps(r[1][:-1])          # TLC prints every successor of the last step: keep one per behaviour
+        if key not in seen:
+            seen.add(key)
+            res.append(r[1])
+    return res[:num]
+
+def data_image(fat32):
+    """two blocks per cluster, two units per block (a cluster = 4 units, as in the model); single-cluster files on every other
+    cluster of the low window, so that deleting them lets later allocations go to lower cluster numbers"""
+    v, upc, bounds = fsgen.geom('G32f' if fat32 else 'G16f', tree='T0', nfree=0, bounds=[0, 256])
+    base = 3 if fat32 else 2
+    pool = [base + 1 + 2 * i for i in range(6)] if fat32 else [base + 2 * i for i in range(6)]
+    free = [c for c in range(base, base + 24) if c not in pool]
+    v['root'] = [f('P%d.DAT' % i, [c], 1) for i, c in enumerate(pool)]
+    v['window'] = sorted(set(pool + free + ([2] if fat32 else [])))
+    if fat32:
+        v['info_next'] = 'first'
+    return dict(vols=[v]), upc, bounds
+
+def data_to_history(hid, steps, fat32, rng):
+    image, upc, bounds = data_image(fat32)
+    ops = fsgen.prologue()
+    fsgen.fix_slot(image, ops)
+    k = 0
+    cur = 'f0'
+    ops.append(fsgen.O('open_file', d='d0', name='F.BIN', mode='Create', as_=cur))
+    expect = {}
+    pool = list(range(6))
+    env = 0
+    for st in steps:
+        lab, off, ln, kind = st
+        if rng.random() < 0.4 and lab[0] in ('write', 'reopen'):
+            if pool and rng.random() < 0.7:
+                ops.append(fsgen.O('delete', d='d0', name='P%d.DAT' % pool.pop(rng.randrange(len(pool)))))
+            else:
+                env += 1
+                ops += [fsgen.O('open_file', d='d0', name='E%d.DAT' % env, mode='Create', as_='e%d' % env), fsgen.O('write', f='e%d' % env, n=1), fsgen.O('close_file', f='e%d' % env)]
+        if lab[0] == 'write':
+            ops.append(fsgen.O('write', f=cur, n=lab[1]))
+        elif lab[0] == 'read':
+            ops.append(fsgen.O('read', f=cur, n=lab[1]))
+        elif lab[0] == 'seek':
+            ops.append(fsgen.O('seek_start', f=cur, u=lab[1]))
+        elif lab[0] == 'reopen':
+            ops.append(fsgen.O('close_file', f=cur))
+            k += 1
+            cur = 'f%d' % k
+            ops.append(fsgen.O('open_file', d='d0', name='F.BIN', mode='Truncate' if lab[1] == 'truncate' else 'Append', as_=cur))
+            if lab[1] == 'read':
+                ops.append(fsgen.O('seek_start', f=cur, u=0))
+        expect[len(ops) - 1] = (lab[0], off, ln)
+    ops += [fsgen.O('close_file', f=cur), fsgen.O('iterate', d='d0'), fsgen.O('close_dir', d='d0'), fsgen.O('close_volume', v='v0'), fsgen.O('remount')]
+    return dict(id=hid, src='datatour', image=image, bounds=bounds, limits=[4, 4, 1], ops=ops, dataexpect={str(i): e for i, e in expect.items()})
+
+def data_tour_histories(seed, quick):
+    rng = random.Random(seed * 13 + 5)
+    beh = data_behaviours(60 if quick else 1500, seed)
+    return [data_to_history('D%d-%d' % (32 if i % 2 else 16, i), b, bool(i % 2), rng) for i, b in enumerate(beh)]
+
+def data_drift(result_dir, histories):
+    """offset and length of the file after each call: the model's against the implementation's observers"""
+    import glob
+    exp = {h['id']: h['dataexpect'] for h in histories if 'dataexpect' in h}
+    total, mism = 0, []
+    for tr in glob.glob(os.path.join(result_dir, 'trace-*.ndjson')):
+        hid, idx, bad = None, -1, False
+        with open(tr) as fh:
+            for line in fh:
+                e = json.loads(line)
+                if e['ev'] == 'Reset':
+                    hid, bad = e['hid'], False
+                elif e['ev'] == 'Call':
+                    idx = e.get('i', -1)
+                elif e['ev'] == 'Ret' and hid in exp and str(idx) in exp[hid] and not bad:
+                    w = exp[hid][str(idx)]
+                    total += 1
+                    obs = e.get('obs') or []
+                    got = (obs[0]['off'], obs[0]['len']) if obs else None
+                    if got != (w[1], w[2]):
+                        bad = True
+                        if len(mism) < 50:
+                            mism.append(dict(hid=hid, want=[w[0], 'offset/length', [w[1], w[2]]], got=[e['op'], 'offset/length', list(got) if got else None]))
     return total, mism
